@@ -1369,6 +1369,21 @@ def str_get(I, a, n):
         return NONE()
 
 
+@model(r"^<&?(usize|u8|u16|u32|u64|isize|i8|i16|i32|i64) as std::ops::(Add|Sub|Mul|Div|Rem)>::(add|sub|mul|div|rem)$")
+def int_ref_ops(I, a, n):
+    """operators on integer references (`&a * b`): #[rustc_inherit_overflow_checks] - overflow panics as in a dev build"""
+    m = re.match(r"^<&?(\w+) as std::ops::(\w+)", n)
+    ty, op = m.group(1), m.group(2)
+    x, y = deref(a[0]), deref(a[1])
+    if op in ("Add", "Sub", "Mul"):
+        r = I.binop(op + "WithOverflow", x, y, ty)
+        val, ovf = r[0], r[1]
+        if I.branch_bool(ovf):
+            raise Panic("attempt to %s with overflow" % {"Add": "add", "Sub": "subtract", "Mul": "multiply"}[op])
+        return val
+    return I.binop(op, x, y, ty)
+
+
 @model(r"^<std::string::String as std::ops::Add>::add$")
 def string_add(I, a, n):
     s = deref(a[0])
@@ -1513,6 +1528,15 @@ def str_replace(I, a, n):
 def str_split(I, a, n):
     from .models_iter import ListIt
     parts = split_on(I, chars_of(a[0]), pattern_of(I, a[1]))
+    return ListIt([RString(p) for p in parts], False)
+
+
+@model(r"^core::str::split_terminator$")
+def str_split_terminator(I, a, n):
+    from .models_iter import ListIt
+    parts = split_on(I, chars_of(a[0]), pattern_of(I, a[1]))
+    if parts and not parts[-1]:
+        parts = parts[:-1]      # a trailing empty piece is skipped
     return ListIt([RString(p) for p in parts], False)
 
 
